@@ -412,6 +412,10 @@ for _kind, _key in (('utilize', 0), ('change', 2)):
 job(id='C.utilo.utilize_ortho_option.r2', tu='tier_c/m_util.cpp', defs={'VM_ORTHO_IN_UTIL': None}, entry='step_utilize_nested', key=[2, 0], props=['C12', 'C01', 'C02', 'C11'], unwind=28, objbits=12, timeout=1500, mem_gb=24,
     cbmc_flags=['--slice-formula'], carriers=[r'OS_<.*>::wideReportUtilize', r'O_<.*>::deepReportUtilize', r'C_<.*>::deepRequestUtilize'],
     case_key='orthogonal region (composite sub-region first, utilitarian in the middle, composite last) as an option of a utilitarian region/utilize region 2')
+for _k in (5, 0):
+    job(id='C.randr.randomize_regions.%s' % KIND_NAMES[_k], tu='tier_c/m_util.cpp', defs={'VM_RANDOM_WITH_REGION': None}, entry='step_randomize_regions', key=[_k, 2], props=['C12', 'C01', 'C11'], quick_for=['C12', 'C11'],
+        unwind=20, objbits=12, timeout=1500, safety_always=True, carriers=[r'CS_<.*>::wideReportRank', r'CS_<.*>::wideReportRandomize', r'C_<.*>::resolveRandom'],
+        case_key='random region whose first option is a region/%s region 2' % KIND_NAMES[_k])
 M_UTILH = Machine('utilh', 'tier_c/m_util.cpp', [-1, 0, 0, 2, 3, 3, 2], ['C', 'L', 'C', 'C', 'L', 'L', 'L'], defs={'VM_HEADLESS_UTIL': None}, unwind=18)
 job(id='C.utilh.utilize_headless.r2', tu=M_UTILH.tu, defs=M_UTILH.defs, entry='step_utilize_nested', key=[2, 1], props=['C12', 'C01', 'C02', 'C11'], tier='thorough', unwind=18, objbits=12, timeout=1500, mem_gb=24, cbmc_flags=['--slice-formula'],
     carriers=[r'C_<.*>::deepReportUtilize', r'S_<.*EmptyT.*>::wrapUtility|S_<.*>::wrapUtility', r'C_<.*>::deepRequestUtilize'], case_key='headless nested utility/utilize region 2 (anonymous head counts as 1)')
@@ -439,6 +443,10 @@ for _c in range(_m.count(0)):
     for _e in ('step_order_update', 'step_order_react', 'step_order_query'):
         job(id='C.inject.%s.c%d' % (_e[5:], _c), tu=_m.tu, defs=_m.defs, entry=_e, key=[_c], props=['C05', 'C03'], quick_for=['C05'], unwind=12, objbits=12, timeout=900,
             carriers=[r'A_<.*>::wideUpdate|A_<.*>::widePreUpdate', r'A_<.*>::widePostUpdate|A_<.*>::widePostReact'], case_key='inject/%s/cfg=%d' % (_e[5:], _c))
+for _d in range(1, _m.n):
+    for _k in (0, 1):
+        job(id='C.inject.imm.%s.d%d' % (KIND_NAMES[_k], _d), tu=_m.tu, defs=_m.defs, entry='step_immediate', key=[_k, _d], props=['C03', 'C01'], quick_for=['C03'], unwind=12, objbits=12, timeout=900,
+            carriers=[r'A_<.*>::wideEnter', r'A_<.*>::wideReenter', r'A_<.*>::wideExit'], case_key='inject/immediate %s dest=%d' % (KIND_NAMES[_k], _d))
 # Config option chains: bottom-up reactions alone, and with head-room options chained after / before it (C15: options never change unrelated behaviour; C05: bottom-up order)
 for opt in (1, 2, 3):
     m = Machine('options%d' % opt, 'tier_c/m_resumable.cpp', [-1, 0, 0, 2, 2, 0], ['C', 'L', 'C', 'L', 'L', 'L'], defs={'VM_OPTIONS': opt})
@@ -449,6 +457,11 @@ for opt in (1, 2, 3):
                 case_key='%s/%s/cfg=%d' % (m.name, e[5:], c), **base)
     for d in (1, 4):
         job(id='C15.%s.imm.change.d%d' % (m.name, d), entry='step_immediate', key=[0, d], props=['C15'], carriers=[], case_key='%s/immediate change dest=%d' % (m.name, d), **base)
+# the plan executor exists twice (payload / void): the same plan shapes under both copies
+for _pay in (0, 1):
+    for _shape in (3, 4, 10):
+        job(id='C15.plan_%s.c1.shape%d.a3.succeed' % ('payload' if _pay else 'void', _shape), tu='tier_c/m_plan.cpp', defs=({'VM_PLAN_PAYLOAD': None} if _pay else {}), entry='step_plan', key=[1, _shape, 3, 1], props=['C15', 'C06'],
+            quick_for=['C15'], count_all_as='C15', unwind=14, objbits=12, timeout=900, carriers=[r'FullControlT<.*>::updatePlan'], case_key='plan executor %s copy/shape %d' % ('payload' if _pay else 'void', _shape))
 for tu, defs in (('tier_c/m_resumable.cpp', {}), ('tier_c/m_ortho.cpp', {}), ('tier_c/m_util.cpp', {}), ('tier_c/m_plan.cpp', {}), ('tier_a/tasklist.cpp', {'CAP': 4}), ('tier_a/arrays.cpp', {'CAP': 4, 'CAP2': 3}),
                  ('tier_a/bits.cpp', {'VP_N': 17}), ('tier_a/random.cpp', {}), ('tier_b/registry.cpp', {}), ('tier_b/plans.cpp', {'VP_TCAP': 3}), ('tier_c/m_resumable.cpp', {'VM_FEATURES': 0})):
     job(id='C15.ir_equal.%s%s' % (tu.split('/')[1][:-4], '' if not defs else '.' + '_'.join('%s%s' % kv for kv in sorted(defs.items()))), tu=tu, defs=defs, entry='-', mode='ir_equal', props=['C15'], carriers=[],
@@ -504,6 +517,7 @@ QUICK_TABLE = [
     (r'^C\.plan2\.',                     ['C06']),
     (r'^C\.plan3\.',                     ['C06']),
     (r'^C\.utiln\.utilize_nested\.r2$',  ['C12', 'C01']),
+    (r'^C\.randr\.',                    ['C12', 'C11']),
     (r'^C\.utilr\.',                    ['C12', 'C01']),
     (r'^C\.utilo\.',                    ['C12', 'C02']),
     (r'^C\.util',                        ['C12']),
